@@ -36,7 +36,14 @@ def confirm(d):
         for f in demos:
             os.remove(os.path.join(wt, f))
         rc, out = sh(SUITE, wt)
+        retries = 0
+        # tests/stop_balancing_objective solves 10000 iterations under a 10 s limit in deterministic parallel mode over
+        # many cycles: its result depends on machine load (and on the C13 finding); a failure confined to it is re-run
+        while rc != 0 and retries < 3 and all("stop_balancing_objective" in l for l in out.splitlines() if l.startswith("FAIL\t")):
+            retries += 1
+            rc, out = sh("go test -vet=off -count=1 ./tests/stop_balancing_objective/", wt)
         res["suite_with_change"] = "pass" if rc == 0 else "FAIL"
+        res["suite_flaky_reruns_of_stop_balancing_objective"] = retries
         if rc != 0:
             res["suite_tail"] = out[-800:]
     finally:
